@@ -40,6 +40,12 @@ func (o *objectIncludeStrategy) evaluate(m *MethodEvaluator) error {
 		base.SeparateNameSpaces(nextT.ToString())
 
 	parentFrame = base.CalculateFrame(parentFrame, parentNamespace)
+
+	// an unqualified module is looked up in the enclosing namespaces first
+	if parentFrame == "" && !base.IsNameSpace(nextT.ToString()) {
+		parentFrame = base.ResolveClassFrame(m.ctx.GetFrame(), parentClass)
+	}
+
 	var parentNode base.ClassNode
 
 	if m.method == "extend" {
